@@ -645,7 +645,8 @@ class PageTemplate(BaseRenderer):
                 return str(getattr(img, parameter))
         except KeyError: pass
 
-        return '&%s-%s;' % (filename, parameter)
+        # Not an image placeholder: this is document text, leave it alone
+        return m.group(0)
 
 
 # Set Renderer variable so that plastex will know how to load it
